@@ -42,7 +42,7 @@ func (p nHits) Rate(time.Duration) float64                              { return
 // alphabets
 
 var (
-	methods = []string{"GET", "POST", "PATCH"}
+	methods = []string{"GET", "POST", "PATCH", "get", "mSearch"} // methods are case-sensitive tokens: the last two reach the transport as written
 	// the last three are spelled differently from what net/url prints for them (scheme case, escaping)
 	urls    = []string{"http://h.example/plain", "http://user:pw@h.example:8080/p/a?x=1&y=two", "HTTP://h.example/Upper", "http://h.example/with space?q=a b", "http://h.example/caf\u00e9#frag"}
 	hdrSets = []http.Header{
